@@ -24,6 +24,7 @@ type c04Case struct {
 	Body         wireBody       `json:"body"`
 	Script       memhttp.Script `json:"script"`
 	DropTrailers bool           `json:"drop_trailers"`
+	Limit        int            `json:"limit,omitempty"` // read limit on the receiving side (0 = none)
 }
 
 func isPrefix(a, b [][]byte) bool {
@@ -55,9 +56,19 @@ func frameBoundaries(w wireBody) (bounds map[int]bool, termStart int) {
 	return bounds, termStart
 }
 
+// compressedUnaryConnect: a unary Connect body that is one compressed stream;
+// unlike an uncompressed one, no proper prefix of it is a complete body.
+func compressedUnaryConnect(w wireBody) bool {
+	if w.Proto != PConnect || w.Kind != KUnary {
+		return false
+	}
+	enc := w.Header.Get("Content-Encoding")
+	return enc != "" && enc != "identity"
+}
+
 func c04Check(c *ev.Collector, k c04Case, baseline wireObs) {
 	w := k.Body
-	obs := deliver(w, k.Script, k.DropTrailers)
+	obs := deliverLimited(w, k.Script, k.DropTrailers, k.Limit)
 	n := len(w.Body)
 	cut := k.Script.Cut
 	complete := cut < 0 || cut >= n
@@ -142,14 +153,14 @@ func c04Check(c *ev.Collector, k c04Case, baseline wireObs) {
 			}
 		}
 		unaryConnect := w.Proto == PConnect && w.Kind == KUnary
-		if unaryConnect && cleanEnd {
+		if unaryConnect && cleanEnd && (cut == 0 || !compressedUnaryConnect(w)) {
 			midMessage = false // a shorter body is a different complete body (not judged)
 		}
 		if (midMessage || failed) && obs.UserEnd == "eof" {
 			bad = true
 			viol("handler-no-clean-end", "clean-eof", "request body %s but the handler's Receive loop saw a clean end after %s", map[bool]string{true: "failed", false: "stopped mid-message"}[failed], shortMsgs(obs.Msgs))
 		}
-		if (midMessage || failed) && obs.End == "ok" && !unaryConnect {
+		if (midMessage || failed) && obs.End == "ok" && (!unaryConnect || compressedUnaryConnect(w)) {
 			bad = true
 			viol("handler-no-clean-end", "answered-ok", "request body failed / stopped mid-message but the call was answered ok")
 		}
@@ -475,7 +486,7 @@ func TestC04(t *testing.T) {
 			batch = nil
 			Bubble(t, func() {
 				for _, k := range b {
-					c.Case(fmt.Sprintf("%s|%d|%s|%v|%v", w.key(), k.Script.Cut, k.Script.End, k.Script.WithLast, k.DropTrailers), k.Script.Cut < n || k.Script.End != "eof")
+					c.Case(fmt.Sprintf("%s|%d|%s|%v|%v|limit%d", w.key(), k.Script.Cut, k.Script.End, k.Script.WithLast, k.DropTrailers, k.Limit), k.Script.Cut < n || k.Script.End != "eof")
 					c04Check(c, k, base)
 				}
 			})
@@ -505,10 +516,16 @@ func TestC04(t *testing.T) {
 						if !drop && end != "eof" {
 							continue // HTTP trailers cannot follow a failed transport
 						}
-						if w.Proto == PConnect && w.Kind == KUnary && end == "eof" && off < n {
+						if w.Proto == PConnect && w.Kind == KUnary && end == "eof" && off < n && (off == 0 || !compressedUnaryConnect(w)) {
 							continue // a shorter unary Connect body is a different complete body (not judged)
 						}
 						batch = append(batch, c04Case{Body: w, Script: memhttp.Script{Cut: off, End: end, WithLast: wl}, DropTrailers: drop})
+						if compressedUnaryConnect(w) {
+							// the same under a read limit of exactly the message's decompressed size
+							if plain, err := Gunzip(w.Body); err == nil && len(plain) >= len(w.Body) {
+								batch = append(batch, c04Case{Body: w, Script: memhttp.Script{Cut: off, End: end, WithLast: wl}, DropTrailers: drop, Limit: len(plain)})
+							}
+						}
 						if len(batch) >= 200 {
 							flush()
 						}
